@@ -178,6 +178,18 @@ func Solve(o *Obl, query string, dir string, timeoutMs int, wantModel bool) {
 	if best.result == "sat" {
 		o.Model = best.out
 	}
+	if best.result == "unknown" {
+		nerr := 0
+		for _, r := range o.Results {
+			if r == "error" {
+				nerr++
+			}
+		}
+		if nerr == len(solvers) {
+			o.Result = "error"
+			fmt.Fprintf(os.Stderr, "SOLVER-ERROR on %s: %s\n", o.Name, firstLine(o.Model))
+		}
+	}
 }
 
 func sanitizeFile(s string) string {
@@ -216,4 +228,13 @@ func SolveAll(jobs []job, dir string, timeoutMs int, workers int) {
 	}
 	close(ch)
 	wg.Wait()
+}
+
+func firstLine(s string) string {
+	for _, l := range strings.Split(s, "\n") {
+		if strings.TrimSpace(l) != "" {
+			return l
+		}
+	}
+	return ""
 }
